@@ -1164,3 +1164,14 @@ package vanguard
 //@   ensures[C03] !old(hdrHas(headers, "Content-Type")) ==> hdr(headers, "Content-Type") == "application/" + meta.codec
 //@   ensures[C05] hdrSameExcept(headers, "Content-Type", "Content-Encoding", "Accept-Encoding")
 //@   modifies mapobj(headers), #LIB0
+
+// C04: a backend that fails with a bare HTTP status (no grpc-status) is reported with the RPC code the
+// published HTTP->RPC mapping assigns; a response that carries grpc-status in its headers
+// (trailers-only) ends the RPC right there.
+//@ func grpcExtractResponseMeta
+//@   requires headers != nil
+//@   ensures[C04] statusCode != 200 ==> result.end != nil && result.end.err != nil
+//@   ensures[C04] statusCode != 200 && old(hdrCount(headers, "Grpc-Status")) == 0 ==> code(result.end.err) == http2rpc(statusCode)
+//@   ensures[C04,C03] old(hdrCount(headers, "Grpc-Status")) > 0 ==> result.end != nil && result.end.httpCode == statusCode
+//@   ensures[C04,C03] statusCode == 200 && old(hdrCount(headers, "Grpc-Status")) == 0 ==> result.end == nil
+//@   ensures[C02,C03] result.compression == old(hdr(headers, "Grpc-Encoding"))
